@@ -411,6 +411,10 @@ func c07WithUnicode() []*gast.Grammar {
 		mk(r("A", gast.C(gast.S(gast.Ref("B"), gast.L("x")), ul("N"))), r("B", gast.S(gast.Ref("A"), ul("Lu", "Nd")))),
 		mk(r("S", gast.S(gast.Ref("W"), gast.C(gast.S(gast.Ref("S"), gast.L("+")), gast.Ref("I")))), r("W", gast.Star(ul("Zs"))), r("I", gast.Plus(gast.Cl(&gast.ClassSpec{UClasses: []string{"Ll"}, Chars: []rune("_"), IgnoreCase: true})))),
 		mk(r("S", gast.C(gast.S(gast.Opt(gast.Li("é")), gast.Ref("S"), gast.L("!")), gast.Cl(&gast.ClassSpec{UClasses: []string{"Greek"}, Inverted: true})))),
+		// references to rules that are defined nowhere, at initial positions (pigeon accepts such a
+		// grammar and the parser reports the undefined rule when it gets there): no cycle, no re-entry
+		mk(r("Doc", gast.S(gast.Opt(gast.Ref("Shebang")), gast.Star(gast.Ref("Line")), gast.NotE(gast.Dot()))), r("Line", gast.S(gast.Plus(gast.Cl(gast.Chars("ab"))), gast.L("\n")))),
+		mk(r("A", gast.C(gast.S(gast.AndE(gast.Ref("Nowhere")), gast.L("a")), gast.S(gast.Ref("B"), gast.L("b")), gast.L("c"))), r("B", gast.C(gast.Ref("Missing"), gast.S(gast.L("x"), gast.Ref("A"))))),
 	}
 }
 
